@@ -6,6 +6,8 @@ import (
 	"bytes"
 	"encoding/xml"
 	"net/url"
+
+	"github.com/johannesboyne/gofakes3"
 )
 
 func setQuery(u *url.URL, q url.Values) {
@@ -32,3 +34,278 @@ func (r *Recorder) ErrCode() string {
 }
 
 func (r *Recorder) HasErrDoc() bool { return bytes.Contains(r.Body, []byte("<Error>")) }
+
+func (r *Recorder) BucketNames() []string {
+	var d struct {
+		Buckets []struct {
+			Name string `xml:"Name"`
+		} `xml:"Buckets>Bucket"`
+	}
+	if xml.Unmarshal(r.Body, &d) != nil {
+		return nil
+	}
+	var out []string
+	for _, b := range d.Buckets {
+		out = append(out, b.Name)
+	}
+	return out
+}
+
+func (r *Recorder) List() (v ListView) {
+	var d struct {
+		XMLName        xml.Name
+		IsTruncated    bool   `xml:"IsTruncated"`
+		Prefix         string `xml:"Prefix"`
+		Delimiter      string `xml:"Delimiter"`
+		MaxKeys        int64  `xml:"MaxKeys"`
+		NextMarker     string `xml:"NextMarker"`
+		NextToken      string `xml:"NextContinuationToken"`
+		KeyCount       int64  `xml:"KeyCount"`
+		HasKeyCount    *int64 `xml:"KeyCount"`
+		Contents       []struct {
+			Key  string `xml:"Key"`
+			Size int64  `xml:"Size"`
+			ETag string `xml:"ETag"`
+		} `xml:"Contents"`
+		CommonPrefixes []struct {
+			Prefix string `xml:"Prefix"`
+		} `xml:"CommonPrefixes"`
+	}
+	d2 := struct {
+		XMLName        xml.Name
+		IsTruncated    bool   `xml:"IsTruncated"`
+		Prefix         string `xml:"Prefix"`
+		Delimiter      string `xml:"Delimiter"`
+		MaxKeys        int64  `xml:"MaxKeys"`
+		NextMarker     string `xml:"NextMarker"`
+		NextToken      string `xml:"NextContinuationToken"`
+		KeyCount       *int64 `xml:"KeyCount"`
+		Contents       []struct {
+			Key  string `xml:"Key"`
+			Size int64  `xml:"Size"`
+			ETag string `xml:"ETag"`
+		} `xml:"Contents"`
+		CommonPrefixes []struct {
+			Prefix string `xml:"Prefix"`
+		} `xml:"CommonPrefixes"`
+	}{}
+	_ = d
+	if xml.Unmarshal(r.Body, &d2) != nil || d2.XMLName.Local != "ListBucketResult" {
+		return v
+	}
+	v.OK = true
+	v.IsTruncated, v.Prefix, v.Delimiter, v.MaxKeys = d2.IsTruncated, d2.Prefix, d2.Delimiter, d2.MaxKeys
+	v.NextMarker, v.NextToken = d2.NextMarker, d2.NextToken
+	if d2.KeyCount != nil {
+		v.V2 = true
+		v.KeyCount = *d2.KeyCount
+	}
+	for _, c := range d2.Contents {
+		v.Keys = append(v.Keys, c.Key)
+		v.Sizes = append(v.Sizes, c.Size)
+		v.ETags = append(v.ETags, c.ETag)
+	}
+	for _, p := range d2.CommonPrefixes {
+		v.Prefixes = append(v.Prefixes, p.Prefix)
+	}
+	return v
+}
+
+func (r *Recorder) Deleted() (keys []string, nerr int, ok bool) {
+	var d struct {
+		XMLName xml.Name `xml:"DeleteResult"`
+		Deleted []struct {
+			Key string `xml:"Key"`
+		} `xml:"Deleted"`
+		Error []struct {
+			Key string `xml:"Key"`
+		} `xml:"Error"`
+	}
+	if xml.Unmarshal(r.Body, &d) != nil {
+		return nil, 0, false
+	}
+	for _, o := range d.Deleted {
+		keys = append(keys, o.Key)
+	}
+	return keys, len(d.Error), true
+}
+
+func (r *Recorder) UploadID() string {
+	var d struct {
+		UploadID string `xml:"UploadId"`
+	}
+	xml.Unmarshal(r.Body, &d)
+	return d.UploadID
+}
+
+func (r *Recorder) CompleteETag() string {
+	var d struct {
+		XMLName xml.Name `xml:"CompleteMultipartUploadResult"`
+		ETag    string   `xml:"ETag"`
+	}
+	if xml.Unmarshal(r.Body, &d) != nil {
+		return ""
+	}
+	return d.ETag
+}
+
+func (r *Recorder) Versions() (v VersionsView) {
+	dec := xml.NewDecoder(bytes.NewReader(r.Body))
+	type ent struct {
+		Key       string `xml:"Key"`
+		VersionID string `xml:"VersionId"`
+		IsLatest  bool   `xml:"IsLatest"`
+		Size      int64  `xml:"Size"`
+		ETag      string `xml:"ETag"`
+	}
+	depth := 0
+	for {
+		tok, err := dec.Token()
+		if err != nil {
+			break
+		}
+		switch t := tok.(type) {
+		case xml.StartElement:
+			depth++
+			if depth == 1 {
+				if t.Name.Local != "ListBucketVersionsResult" {
+					return VersionsView{}
+				}
+				v.OK = true
+				continue
+			}
+			if depth != 2 {
+				continue
+			}
+			switch t.Name.Local {
+			case "Version", "DeleteMarker":
+				var e ent
+				if dec.DecodeElement(&e, &t) == nil {
+					v.Items = append(v.Items, VersionEntry{Key: e.Key, VersionID: e.VersionID, IsLatest: e.IsLatest, Size: e.Size, ETag: e.ETag, Marker: t.Name.Local == "DeleteMarker"})
+				}
+				depth--
+			case "IsTruncated":
+				var b bool
+				dec.DecodeElement(&b, &t)
+				v.IsTruncated = b
+				depth--
+			case "NextKeyMarker":
+				dec.DecodeElement(&v.NextKeyMarker, &t)
+				depth--
+			case "NextVersionIdMarker":
+				dec.DecodeElement(&v.NextVersionIDMarker, &t)
+				depth--
+			case "CommonPrefixes":
+				var p struct {
+					Prefix string `xml:"Prefix"`
+				}
+				dec.DecodeElement(&p, &t)
+				v.Prefixes = append(v.Prefixes, p.Prefix)
+				depth--
+			}
+		case xml.EndElement:
+			depth--
+		}
+	}
+	return v
+}
+
+func (r *Recorder) Uploads() (v UploadsView) {
+	var d struct {
+		XMLName            xml.Name `xml:"ListMultipartUploadsResult"`
+		IsTruncated        bool     `xml:"IsTruncated"`
+		NextKeyMarker      string   `xml:"NextKeyMarker"`
+		NextUploadIDMarker string   `xml:"NextUploadIdMarker"`
+		Upload             []struct {
+			Key      string `xml:"Key"`
+			UploadID string `xml:"UploadId"`
+		} `xml:"Upload"`
+		CommonPrefixes []struct {
+			Prefix string `xml:"Prefix"`
+		} `xml:"CommonPrefixes"`
+	}
+	if xml.Unmarshal(r.Body, &d) != nil {
+		return v
+	}
+	v.OK = true
+	v.IsTruncated, v.NextKeyMarker, v.NextUploadIDMarker = d.IsTruncated, d.NextKeyMarker, d.NextUploadIDMarker
+	for _, u := range d.Upload {
+		v.Keys = append(v.Keys, u.Key)
+		v.IDs = append(v.IDs, u.UploadID)
+	}
+	for _, p := range d.CommonPrefixes {
+		v.Prefixes = append(v.Prefixes, p.Prefix)
+	}
+	return v
+}
+
+func (r *Recorder) Parts() (v PartsView) {
+	var d struct {
+		XMLName     xml.Name `xml:"ListPartsResult"`
+		IsTruncated bool     `xml:"IsTruncated"`
+		NextMarker  int      `xml:"NextPartNumberMarker"`
+		Part        []struct {
+			PartNumber int    `xml:"PartNumber"`
+			Size       int64  `xml:"Size"`
+			ETag       string `xml:"ETag"`
+		} `xml:"Part"`
+	}
+	if xml.Unmarshal(r.Body, &d) != nil {
+		return v
+	}
+	v.OK = true
+	v.IsTruncated, v.NextMarker = d.IsTruncated, d.NextMarker
+	for _, p := range d.Part {
+		v.Numbers = append(v.Numbers, p.PartNumber)
+		v.Sizes = append(v.Sizes, p.Size)
+		v.ETags = append(v.ETags, p.ETag)
+	}
+	return v
+}
+
+type xmlObjectID struct {
+	Key       string `xml:"Key"`
+	VersionID string `xml:"VersionId,omitempty"`
+}
+
+func DeleteBody(objs []gofakes3.ObjectID, quiet bool) []byte {
+	d := struct {
+		XMLName xml.Name      `xml:"Delete"`
+		Objects []xmlObjectID `xml:"Object"`
+		Quiet   bool          `xml:"Quiet,omitempty"`
+	}{Quiet: quiet}
+	for _, o := range objs {
+		d.Objects = append(d.Objects, xmlObjectID{o.Key, o.VersionID})
+	}
+	b, err := xml.Marshal(d)
+	if err != nil {
+		panic(err)
+	}
+	return b
+}
+
+func CompleteBody(parts []gofakes3.CompletedPart) []byte {
+	d := struct {
+		XMLName xml.Name                 `xml:"CompleteMultipartUpload"`
+		Parts   []gofakes3.CompletedPart `xml:"Part"`
+	}{Parts: parts}
+	b, err := xml.Marshal(d)
+	if err != nil {
+		panic(err)
+	}
+	return b
+}
+
+func VersioningBody(status string) []byte {
+	d := struct {
+		XMLName xml.Name `xml:"VersioningConfiguration"`
+		Status  string   `xml:"Status"`
+	}{Status: status}
+	b, err := xml.Marshal(d)
+	if err != nil {
+		panic(err)
+	}
+	return b
+}
+
+func MalformedXMLBody() []byte { return []byte("<Unclosed><a>") }
